@@ -21,6 +21,8 @@ def run(prog: Program, rep: Report):
     r1_unconditional(prog, rep, tp, fp)
     r2_registered(prog, rep, tp, fp)
     r3_covers(prog, rep, tp, fp)
+    from .ownership import rule_no_class_state
+    rule_no_class_state(prog, rep, "C20.R4", [tp, fp])
 
 
 class _Cleanup(Client):
@@ -308,6 +310,19 @@ def r3_covers(prog, rep: Report, tp: Cls, fp: Cls):
         dropped = any(isinstance(s, ast.Assign) and dotted(s.targets[0]) == (cl.self_name, hf) and const_value(s.value, 0) is None
                       for s in cl.node.body[cl.node.body.index(lp) + 1:])
         ok = it_ok and len(closes) == 1 and not skip and dropped
-    rep.check("C20.R3", cl, "close-all", ok, "closes every handle of the mapping, then drops the mapping",
+        # every path through close() reaches the loop: the only early exit allowed is "nothing was opened" (mapping is None / empty)
+        nothing = {f"{cl.self_name}.{hf} is None", f"not {cl.self_name}.{hf}", f"{cl.self_name}.{hf} is None or not {cl.self_name}.{hf}"}
+        for st in cl.node.body[:cl.node.body.index(lp)]:
+            for x in ast.walk(st):
+                if isinstance(x, (ast.Return, ast.Raise)):
+                    guard = getattr(x, "_parent", None)
+                    if not (isinstance(guard, ast.If) and x in guard.body and src(guard.test) in nothing):
+                        rep.viol("C20.R3", cl, "close-all", f"close() can leave at line {x.lineno} before any handle is closed"
+                                 + (f" (when `{src(guard.test)}`)" if isinstance(guard, ast.If) else ""),
+                                 scenario="the with-body closes one handle itself (or the guard is true for another reason): the other "
+                                          "handles stay open after the context", line=x.lineno)
+                        ok = None
+    if ok is not None:
+        rep.check("C20.R3", cl, "close-all", ok, "closes every handle of the mapping, then drops the mapping",
               "FilePool.close does not close every handle of the mapping and drop it afterwards",
               scenario="after the with block some handle.closed is False")
